@@ -75,8 +75,11 @@ def run_case(case):
             if "VIOLATED" in line or "UNDECIDED" in line:
                 first = line.replace(d + "/", "")[:300]
                 break
+        decided = any("VIOLATED" in line for line in out.splitlines())
         if case["expect"] == "kill":
-            outcome = "killed" if fired else "SURVIVED"
+            # "killed-undecided-only": the check exits 1 but only because it could not analyse the changed code - the
+            # change is reported, yet no obligation was shown false; such a report disappears when the model improves
+            outcome = ("killed" if decided else "killed-undecided-only") if fired else "SURVIVED"
         else:
             outcome = "benign-silent" if not fired else "FALSE-ALARM"
         return dict(case, outcome=outcome, detail=first)
@@ -97,7 +100,7 @@ def main():
         for res in ex.map(run_case, cases):
             results.append(res)
             line = "SELFTEST %s %s expect=%s -> %s" % (res["prop"], res["id"], res["expect"], res["outcome"])
-            if res["outcome"] in ("SURVIVED", "FALSE-ALARM"):
+            if res["outcome"] in ("SURVIVED", "FALSE-ALARM", "killed-undecided-only"):
                 line = "SELFTEST-WARNING " + line[9:] + " :: " + (res.get("file") or res.get("patch", ""))
             print(line)
     summary = {}
